@@ -1,11 +1,11 @@
 #!/bin/sh
-# usage: tools/confirm_seed.sh <ID> <change-number>
+# usage: tools/confirm_seed.sh <ID> <change-number> [round]
 # Confirms an independently seeded change in its scratch worktree /tmp/wt_<ID>:
 #   clean tree: demo exits 0; with patch: `cargo test --workspace --offline` passes and demo exits != 0.
 # Prints one summary line; exit 0 iff all three hold.
 set -u
-ID="$1"; N="$2"
-WT="/tmp/wt_$ID"; DIR="/tmp/seed_$ID/change$N"
+ID="$1"; N="$2"; ROUND="${3:-1}"
+if [ "$ROUND" = 2 ]; then WT="/tmp/w2_$ID"; DIR="/tmp/s2_$ID/change$N"; else WT="/tmp/wt_$ID"; DIR="/tmp/seed_$ID/change$N"; fi
 export CARGO_NET_OFFLINE=true
 cd "$WT" || exit 2
 git checkout -q -- . && git clean -fdq -e target
